@@ -3,6 +3,7 @@ package bt
 import (
 	"encoding/json"
 	"errors"
+	"math"
 
 	"github.com/libsv/go-bt/v2/bscript"
 )
@@ -162,7 +163,8 @@ func (o *nodeOutputJSON) toOutput() (*Output, error) {
 	if err != nil {
 		return nil, err
 	}
-	out.Satoshis = uint64(o.Value * 100000000)
+	// the value is a coin amount in floating point: round to the nearest satoshi
+	out.Satoshis = uint64(math.Round(o.Value * 100000000))
 	out.LockingScript = s
 	return out, nil
 }
